@@ -278,6 +278,7 @@ func generateLoop(l *ast.AstLoop, offset int, state *GenState) ([]SearchInstruct
 		newMax = l.Max - l.Min
 	}
 
+	verifYield("generate.loopid")
 	id := rand.Int63()
 
 	start := StartLoop{
@@ -542,6 +543,7 @@ func generateVariable(l *ast.AstVariable, offset int, state *GenState) ([]Search
 		bodyinsts := []SearchInstruction{}
 		loffset := offset + 1
 		for _, expr := range globalSub.search {
+			verifYield("generate.adjust")
 			inst := expr.adjust(offset+1, state)
 			loffset += 1
 			bodyinsts = append(bodyinsts, inst)
